@@ -449,8 +449,7 @@ class Statechart:
         # Change transitions
         for transition in self.transitions:
             if transition.source == old_name:
-                if transition.internal:
-                    transition._target = new_name
+                # An internal transition has no target, and must remain internal
                 transition._source = new_name
 
             if transition.target == old_name:
